@@ -127,6 +127,11 @@ Arguments ROk {A} a.
 Arguments RExport {A}.
 Arguments RImport {A}.
 
+(* how import_colmap is called: which artefacts it is given, skip_reconstruction, no_geometric_filtering *)
+Inductive source := SBoth | SDb | STxt.            (* database + reconstruction directory | database only | text only *)
+Record iopts := mkIO { io_src : source; io_skip : bool; io_nogeom : bool }.
+Definition full_import : iopts := mkIO SBoth false false.
+
 Section Colmap.
   Variable comp : pose -> pose -> pose.          (* PoseTransform.compose([a, b]), used by rigs_remove_inplace *)
   Variable tok : Type.                            (* a floating-point number as written in a text file *)
@@ -389,6 +394,63 @@ Section Colmap.
     | Some c => match import c with Some d' => ROk d' | None => RImport end
     end.
 
+  (* ---------------------------------------------------------------- import_colmap with its other options
+     (import_colmap.py:166-285).  [import_data] above is the call the property is about (database + reconstruction,
+     nothing skipped); [import_mode] is the same function for every combination of
+       - artefacts: database only / reconstruction text only / both,
+       - skip_reconstruction: the database part stops after cameras, images and prior poses; the text part skips
+         keypoints, points and observations,
+       - no_geometric_filtering: matches are read from two_view_geometries only when that table is not empty;
+         export_colmap never fills it, so the flag has no effect on exported artefacts.
+     PoseTransform priors of the database: export writes zeros for an image without pose, so a database-only import
+     gives such an image the all-zero pose (import_colmap_database.py:78-84 tests for NULL, never written).
+     The result is a function of the artefacts and the options ONLY: nothing is remembered from one call to the
+     next (Props/C13.v, C13_history_independent; the correspondence runs histories of calls in one process). *)
+  Definition import_traj_db (db : cdb) : option (traj pose) :=
+    match db_images db with
+    | [] => None                                   (* `if len(kapture_trajectories) == 0` *)
+    | is => Some (fold_left (fun T ci => set2 (ci_id ci) (cam_name (ci_cam ci)) (ci_prior ci) T) is [])
+    end.
+
+  Definition import_mode (o : iopts) (c : colmap) : dataset :=
+    let db := fst c in let tx := snd c in
+    let use_db := match io_src o with STxt => false | _ => true end in
+    let R := if use_db then import_records_db db else [] in
+    let feats_db := use_db && negb (io_skip o) in
+    let kp_db := if feats_db then import_feats R 6%Z (db_kp db) else None in
+    (* what_to_skip_during_import_txt: a fresh set on every call *)
+    let skip_kp := io_skip o || match kp_db with Some _ => true | None => false end in
+    let Rt := match tx_images tx with Some is => import_records_txt is | None => [] end in
+    let names := if legacy then from_pairs (id_names Rt) else update (from_pairs (id_names R)) (id_names Rt) in
+    let traj_tx := match tx_images tx with Some is => Some (import_traj_txt is) | None => None end in
+    let kp_tx := if skip_kp then None else match tx_images tx with Some is => import_kp_txt is | None => None end in
+    let points := if io_skip o then [] else import_points (tx_points tx) in
+    let obs := if io_skip o then [] else import_obs names (tx_points tx) in
+    let desc_db := if feats_db then import_feats R 128%Z (db_desc db) else None in
+    let matches_db := if feats_db then Some (import_matches R (db_matches db)) else None in
+    match io_src o with
+    | SDb => mkD (import_sensors_db db) None (import_traj_db db) R kp_db desc_db matches_db [] []
+    | STxt => mkD (from_pairs (import_sensors_txt (tx_cameras tx))) None traj_tx Rt kp_tx None None points obs
+    | SBoth => mkD (update (import_sensors_db db) (import_sensors_txt (tx_cameras tx))) None traj_tx R
+                   (match kp_db with Some f => Some f | None => kp_tx end) desc_db matches_db points obs
+    end.
+
+  Definition import_ok_mode (o : iopts) (c : colmap) : bool :=
+    match io_src o with
+    | SDb => true
+    | _ => io_skip o || import_ok c
+    end.
+
+  Definition roundtrip_mode (o : iopts) (d : dataset) : result dataset :=
+    match export d with
+    | None => RExport
+    | Some c => if import_ok_mode o c then ROk (import_mode o c) else RImport
+    end.
+
+  (* a history of calls in one process: each result depends on its own dataset and options only *)
+  Definition run_history (h : list (iopts * dataset)) : list (result dataset) :=
+    map (fun s => roundtrip_mode (fst s) (snd s)) h.
+
   (* ---------------------------------------------------------------- COLMAP's expressive range, as a boolean *)
   Definition is_int (q : Q) : bool := Pos.eqb (Qden q) 1.
   Definition camera_in_range (s : sensor) : bool :=
@@ -442,6 +504,11 @@ Definition roundtrip_with (comp : pose -> pose -> pose) (legacy : bool) : datase
   roundtrip comp Q (fun x => x) (fun x => x) cam_name_x
             Tcolmap.camera_model_ids Tcolmap.camera_model_names Tcolmap.unknown_camera
             Tcolmap.unknown_camera_exported_as Tcolmap.default_focal_length_factor Tcolmap.max_image_id legacy.
+Definition roundtrip_mode_with (comp : pose -> pose -> pose) (legacy : bool) : iopts -> dataset -> result dataset :=
+  roundtrip_mode comp Q (fun x => x) (fun x => x) cam_name_x
+                 Tcolmap.camera_model_ids Tcolmap.camera_model_names Tcolmap.unknown_camera
+                 Tcolmap.unknown_camera_exported_as Tcolmap.default_focal_length_factor Tcolmap.max_image_id legacy.
+Definition roundtrip_mode_x := roundtrip_mode_with MRigs.comp_x false.
 Definition roundtrip_spec := roundtrip_with MPose.compose2 false.
 Definition roundtrip_x := roundtrip_with MRigs.comp_x false.
 Definition roundtrip_legacy_x := roundtrip_with MRigs.comp_x true.
@@ -462,7 +529,10 @@ Record observed := mkO {
   o_matches : list ((string * string) * mrows);
   o_points : rows;
   o_obs : list (Z * list (string * Z)) }.
-Record case := mkCase { c_data : dataset; c_obs : observed; c_pairs : list (Z * Z * Z * Z * Z) }.
+(* one export + import of one dataset with one set of import options; a case is a HISTORY of such steps run one
+   after the other in one python process (a single step for the plain round trips) *)
+Record step := mkStep { s_data : dataset; s_opts : iopts; s_obs : observed }.
+Record case := mkCase { c_steps : list step; c_pairs : list (Z * Z * Z * Z * Z) }.
 
 Definition Qs_eqb (a b : list Q) : bool :=
   (fix go a b := match a, b with [] , [] => true | x :: a', y :: b' => Qeq_bool x y && go a' b' | _, _ => false end) a b.
@@ -506,10 +576,10 @@ Definition check_pairs (ps : list (Z * Z * Z * Z * Z)) : bool :=
   forallb (fun t => match t with (a, b, p, x, y) =>
      eqb (pair_id Tcolmap.max_image_id a b) p && eqb (pair_ids Tcolmap.max_image_id p) (x, y) end) ps.
 
-Definition check_case (c : case) : bool :=
-  let d := c_data c in let o := c_obs c in
-  dom_ok d && check_pairs (c_pairs c) &&
-  match roundtrip_x d with
+Definition check_step (c : step) : bool :=
+  let d := s_data c in let o := s_obs c in
+  dom_ok d &&
+  match roundtrip_mode_x (s_opts c) d with
   | RExport => match o_class o with OExportRaises => true | _ => false end
   | RImport => match o_class o with OImportRaises => true | _ => false end
   | ROk d' =>
@@ -526,3 +596,6 @@ Definition check_case (c : case) : bool :=
                            | None => false
                            end) (o_obs o)
   end.
+
+(* every step is compared with the model evaluated on that step alone *)
+Definition check_case (c : case) : bool := check_pairs (c_pairs c) && forallb check_step (c_steps c).
